@@ -11,6 +11,170 @@ error arms (`armsWF`, a decidable predicate the check evaluates on every graph t
 namespace Pxv.Err
 open Pxv.Pipe (Mw MwKind Stage Mid)
 
+/-! ## (1) registration: which observers, which handler -/
+
+/-- the route at an address: `[i₀, …, iₙ]` = item `i₀` of the blueprint is a nested blueprint, item `i₁` of
+    that one is a nested blueprint, …, item `iₙ` of the innermost one is the route. -/
+def routeAt : Bp → List Nat → Option Nat
+  | .nil, _ => none
+  | .cons _ _, [] => none
+  | .cons (.route h _) _, [0] => some h
+  | .cons (.nest b) _, 0 :: i :: more => routeAt b (i :: more)
+  | .cons _ _, 0 :: _ => none
+  | .cons _ rest, (i + 1) :: more => routeAt rest (i :: more)
+
+/-- **the observers registered before the route at an address**: in each blueprint on the way down, the
+    observers registered before the point where the next blueprint is nested (before the route, in the
+    innermost one). Nothing registered later, nothing registered in a blueprint that is not on the way. -/
+def obsAt : Bp → List Nat → List Nat
+  | .nil, _ => []
+  | .cons _ _, [] => []
+  | .cons (.nest b) _, 0 :: more => obsAt b more
+  | .cons _ _, 0 :: _ => []
+  | .cons (.obs x) rest, (i + 1) :: more => x :: obsAt rest (i :: more)
+  | .cons _ rest, (i + 1) :: more => obsAt rest (i :: more)
+
+/-- **C06 (i) — exactly the observers registered before the route**, for every blueprint tree, by induction
+    on the tree: the observer chain `routes` (↔ `_process_blueprint`) hands to a route is what was in force
+    on entry followed by `obsAt`. Observers registered after the route, or in a sibling blueprint, are not
+    part of it. -/
+theorem observers_registered_before : ∀ (b : Bp) (addr : List Nat) (h : Nat) (c : List Mw) (o p : List Nat) (k : Nat),
+    routeAt b addr = some h →
+    ∃ r ∈ routes b c o p k, r.route = h ∧ r.observers = o ++ obsAt b addr
+  | .nil, _, _, _, _, _, _, hr => by simp [routeAt] at hr
+  | .cons it rest, [], _, _, _, _, _, hr => by simp [routeAt] at hr
+  | .cons it rest, 0 :: more, h, c, o, p, k, hr => by
+    cases it with
+    | route h' d =>
+      cases more with
+      | nil =>
+        simp only [routeAt, Option.some.injEq] at hr
+        subst hr
+        exact ⟨⟨h', c, o, p, d⟩, by simp [routes], rfl, by simp [obsAt]⟩
+      | cons _ _ => simp [routeAt] at hr
+    | nest b' =>
+      cases more with
+      | nil => simp [routeAt] at hr
+      | cons i more' =>
+        simp only [routeAt] at hr
+        obtain ⟨r, hr1, hr2, hr3⟩ := observers_registered_before b' (i :: more') h c o (p ++ [k]) 0 hr
+        exact ⟨r, by simp [routes, hr1], hr2, by simp [obsAt, hr3]⟩
+    | ctor _ _ => simp [routeAt] at hr
+    | mw _ _ => simp [routeAt] at hr
+    | obs _ => simp [routeAt] at hr
+    | ehReg _ => simp [routeAt] at hr
+  | .cons it rest, (i + 1) :: more, h, c, o, p, k, hr => by
+    simp only [routeAt] at hr
+    cases it with
+    | obs x =>
+      obtain ⟨r, hr1, hr2, hr3⟩ := observers_registered_before rest (i :: more) h c (o ++ [x]) p k hr
+      exact ⟨r, by simpa [routes] using hr1, hr2, by simp [obsAt, hr3]⟩
+    | mw m d =>
+      obtain ⟨r, hr1, hr2, hr3⟩ := observers_registered_before rest (i :: more) h (c ++ [m]) o p k hr
+      exact ⟨r, by simpa [routes] using hr1, hr2, by simp [obsAt, hr3]⟩
+    | route h' d =>
+      obtain ⟨r, hr1, hr2, hr3⟩ := observers_registered_before rest (i :: more) h c o p k hr
+      exact ⟨r, by simp [routes, hr1], hr2, by simp [obsAt, hr3]⟩
+    | nest b' =>
+      obtain ⟨r, hr1, hr2, hr3⟩ := observers_registered_before rest (i :: more) h c o p (k + 1) hr
+      exact ⟨r, by simp [routes, hr1], hr2, by simp [obsAt, hr3]⟩
+    | ctor j d =>
+      obtain ⟨r, hr1, hr2, hr3⟩ := observers_registered_before rest (i :: more) h c o p k hr
+      exact ⟨r, by simpa [routes] using hr1, hr2, by simp [obsAt, hr3]⟩
+    | ehReg j =>
+      obtain ⟨r, hr1, hr2, hr3⟩ := observers_registered_before rest (i :: more) h c o p k hr
+      exact ⟨r, by simpa [routes] using hr1, hr2, by simp [obsAt, hr3]⟩
+
+/-- a route's observer chain is fixed when the route is registered: nothing registered after it (in its
+    own or an enclosing blueprint) is part of it. -/
+theorem after_route_invisible (h : Nat) (d : Option Nat) (rest rest' : Bp) (c : List Mw) (o p : List Nat) (k : Nat) :
+    (routes (.cons (.route h d) rest) c o p k).head? = (routes (.cons (.route h d) rest') c o p k).head? := by
+  simp [routes]
+
+/-- a nested blueprint starts from a snapshot of its parent's chains; what it registers does not leak to
+    what the parent registers afterwards (siblings included). -/
+theorem nested_is_snapshot (b rest : Bp) (c : List Mw) (o p : List Nat) (k : Nat) :
+    routes (.cons (.nest b) rest) c o p k = routes b c o (p ++ [k]) 0 ++ routes rest c o p (k + 1) := by
+  simp [routes]
+
+-- observers: o1 before the nest, o2 inside the nested blueprint before the route, o3 inside after the
+-- route, o4 in a sibling blueprint, o5 after everything
+example : let bp : Bp := .cons (.obs 1) (.cons (.nest (.cons (.obs 4) .nil)) (.cons (.nest (.cons (.obs 2)
+      (.cons (.route 7 none) (.cons (.obs 3) .nil)))) (.cons (.obs 5) (.cons (.route 8 none) .nil))))
+    routeAt bp [2, 1] = some 7 ∧ obsAt bp [2, 1] = [1, 2] ∧ routeAt bp [4] = some 8 ∧ obsAt bp [4] = [1, 5] ∧
+    (routes bp [] [] [] 0).map (fun r => (r.route, r.observers, r.path)) = [(7, [1, 2], [1]), (8, [1, 5], [])] := by
+  decide
+
+/-! ### the designated error handler -/
+
+/-- a component-specific handler (`.error_handler(..)` on the registration) always wins. -/
+theorem designate_direct (bp : Bp) (targetOf : Nat → Target) (t : Target) (path : List Nat) (k : Nat) :
+    designate bp targetOf t path (some k) = .user k := rfl
+
+/-- a handler for the concrete error type, visible from the component's scope, wins over any handler for
+    `pavex::Error`, however close the latter is registered. -/
+theorem designate_specific_first (bp : Bp) (targetOf : Nat → Target) (t : Target) (path : List Nat) (k : Nat)
+    (h : lookupTyped bp targetOf t (path.length + 1) path = some k) :
+    designate bp targetOf t path none = .user k := by
+  simp [designate, h]
+
+/-- no handler for the concrete type in scope: the user's handler for `pavex::Error` visible from there … -/
+theorem designate_fallback (bp : Bp) (targetOf : Nat → Target) (t : Target) (path : List Nat) (k : Nat)
+    (h : lookupTyped bp targetOf t (path.length + 1) path = none)
+    (hf : lookupTyped bp targetOf .any (path.length + 1) path = some k) :
+    designate bp targetOf t path none = .user k := by
+  simp [designate, h, hf]
+
+/-- … else the framework's `pavex::Error::to_response`. -/
+theorem designate_default (bp : Bp) (targetOf : Nat → Target) (t : Target) (path : List Nat)
+    (h : lookupTyped bp targetOf t (path.length + 1) path = none)
+    (hf : lookupTyped bp targetOf .any (path.length + 1) path = none) :
+    designate bp targetOf t path none = .default := by
+  simp [designate, h, hf]
+
+theorem prefix_dropLast {q path : List Nat} (h : q <+: path) (hne : q ≠ path) : q <+: path.dropLast := by
+  obtain ⟨t, rfl⟩ := h
+  have ht : t ≠ [] := by
+    intro ht; subst ht; simp at hne
+  rw [List.dropLast_append_of_ne_nil ht]
+  exact List.prefix_append _ _
+
+/-- **scoping of by-type handlers**: the handler found is registered, for that error type, in a blueprint
+    that encloses (or is) the one the *fallible component* is registered in, and no blueprint in between
+    registers one: the innermost enclosing registration wins; blueprints that do not enclose the component
+    (siblings, children) are never consulted. -/
+theorem lookupTyped_nearest (bp : Bp) (targetOf : Nat → Target) (t : Target) :
+    ∀ (fuel : Nat) (path : List Nat) (k : Nat), lookupTyped bp targetOf t fuel path = some k →
+      ∃ q, q <+: path ∧ k ∈ ehRegsAt bp q 0 ∧ targetOf k = t ∧
+        ∀ q', q <+: q' → q' <+: path → q' ≠ q → ∀ k' ∈ ehRegsAt bp q' 0, targetOf k' ≠ t
+  | 0, _, _, h => by simp [lookupTyped] at h
+  | fuel + 1, path, k, h => by
+    simp only [lookupTyped] at h
+    split at h
+    · rename_i k0 hk0
+      simp only [Option.some.injEq] at h
+      subst h
+      have hmem := List.mem_of_getLast? hk0
+      obtain ⟨hm1, hm2⟩ := List.mem_filter.mp hmem
+      refine ⟨path, List.prefix_refl _, hm1, by simpa using hm2, ?_⟩
+      intro q' h1 h2 hne
+      exact absurd (h2.eq_of_length_le h1.length_le) hne
+    · rename_i hnone
+      split at h
+      · simp at h
+      · obtain ⟨q, hq1, hq2, hq3, hq4⟩ := lookupTyped_nearest bp targetOf t fuel path.dropLast k h
+        refine ⟨q, hq1.trans (List.dropLast_prefix _), hq2, hq3, ?_⟩
+        intro q' h1 h2 hne k' hk'
+        by_cases hqp : q' = path
+        · subst hqp
+          intro hc
+          have : k' ∈ (ehRegsAt bp q' 0).filter (fun k => targetOf k == t) :=
+            List.mem_filter.mpr ⟨hk', by simpa using hc⟩
+          rw [List.getLast?_eq_none_iff] at hnone
+          rw [hnone] at this
+          cases this
+        · exact hq4 q' h1 (prefix_dropLast h2 hqp) hne k' hk'
+
 /-! ## (2) one generated closure -/
 
 /-- **C06 (a) — nothing that depends on the `Ok` value runs.** For every ordered call graph, every failing set
@@ -315,6 +479,257 @@ theorem observers_once_in_order (g : Graph) (fails : Kind → Bool) (fuel : Nat)
       refine ⟨h, hh1, ?_⟩
       simp [emit, evAt, isEh_not_canFail hh]
 
+/-! ## (3) the pipeline -/
+
+/-- **C06 (d) — the response of the closure is the error handler's.** Under the hypotheses of `handler_once`
+    for the graph of a middleware / handler closure, the closure ends with the response of `h`. -/
+theorem closure_status_is_handlers (env : Env) (k : Kind) (root : Nat)
+    (hwf : armsWF (env.graphOf k) = true) (hroot : findRoot (env.graphOf k) = some root)
+    (st : St) (r m h : Nat) (rest : List Nat)
+    (hexec : exec (env.graphOf k) env.fails ((env.graphOf k).size + 1) (happySink (env.graphOf k) root) [] {} = (st, some r))
+    (herrs : st.errs = [m]) (hlast : st.chosen = m :: rest)
+    (hh : isEh ((env.graphOf k).kind h) = true) (hm : m ∈ ehMatchers (env.graphOf k) h) :
+    (runClosure env k).outcome = .err (ehStatus env ((env.graphOf k).kind h)) := by
+  have hone := handler_once (env.graphOf k) env.fails _ _ hwf st r m h rest hexec herrs hlast hh hm
+  simp only [runClosure, runGraph, hroot, hexec, herrs, lastEhStatus, hone]
+  simp [Ev.kind]
+
+/-- a closure that returned normally leaves the response alone. -/
+theorem statusOr_ok (s : Nat) : Outcome.ok.statusOr s = s := rfl
+
+/-- **C06 (e) — the remaining post-processing does not replace the handler's response**: post-processing
+    middlewares whose closures end normally hand on the status they received. -/
+theorem posts_keep_status (env : Env) : ∀ (qs : List Nat) (s : Nat),
+    (∀ q ∈ qs, (runClosure env (.mw q)).outcome = .ok) → (runPostsE env qs s).2.1 = s
+  | [], _, _ => rfl
+  | q :: qs, s, h => by
+    simp only [runPostsE]
+    rw [h q List.mem_cons_self]
+    exact posts_keep_status env qs s (fun q' hq' => h q' (List.mem_cons_of_mem _ hq'))
+
+/-- … and a post-processing middleware that fails replaces it with its own error handler's response. -/
+theorem post_error_replaces (env : Env) (q : Nat) (qs : List Nat) (s e : Nat)
+    (hq : (runClosure env (.mw q)).outcome = .err e)
+    (hrest : ∀ q' ∈ qs, (runClosure env (.mw q')).outcome = .ok) :
+    (runPostsE env (q :: qs) s).2.1 = e := by
+  simp only [runPostsE, hq, Outcome.statusOr]
+  exact posts_keep_status env qs e hrest
+
+/-- **C06 (f) — an error in a pre-processing middleware (or in what it needs) stops the stage**: the later
+    pre-processors, the wrapping middleware / handler of the stage and everything inside it do not run;
+    the stage's post-processors receive the error handler's response. -/
+theorem pre_error_stops_stage (env : Env) (s : Stage) (rest : List Stage) (e : Nat)
+    (h : (runPresE env s.pres).2.1 = some e) :
+    (runStagesE env (s :: rest)).evs = (runPresE env s.pres).1 ++ (runPostsE env s.posts e).1 ∧
+    (runStagesE env (s :: rest)).status = (runPostsE env s.posts e).2.1 := by
+  simp [runStagesE, h]
+
+theorem pres_error_first (env : Env) (p : Nat) (ps : List Nat) (e : Nat)
+    (hp : (runClosure env (.mw p)).outcome = .err e) :
+    runPresE env (p :: ps) = (expand [.pre p] (runClosure env (.mw p)).evs, some e, (runClosure env (.mw p)).stuck) := by
+  simp [runPresE, hp]
+
+/-- **C06 (g) — an error in the handler's closure**: the stage answers with the error handler's response
+    (after the stage's post-processing), whatever the handler would have returned. -/
+theorem handler_error_status (env : Env) (s : Stage) (rest : List Stage) (h e : Nat)
+    (hmid : s.mid = .handler h) (hpres : (runPresE env s.pres).2.1 = none)
+    (herr : (runClosure env (.handler h)).outcome = .err e)
+    (hposts : ∀ q ∈ s.posts, (runClosure env (.mw q)).outcome = .ok) :
+    (runStagesE env (s :: rest)).status = e := by
+  simp only [runStagesE, hpres, hmid, runMid, herr, Outcome.statusOr]
+  exact posts_keep_status env s.posts e hposts
+
+/-- **C06 (h) — an error in a wrapping middleware's closure before `next` is awaited** (one of its inputs, or
+    the middleware itself): the inner stages do not run at all, and the stage answers with the error
+    handler's response. -/
+theorem wrap_error_skips_inner (env : Env) (s : Stage) (rest : List Stage) (w e : Nat)
+    (hmid : s.mid = .wrap w) (hpres : (runPresE env s.pres).2.1 = none)
+    (hnot : rootCalled (runClosure env (.mw w)).evs = false)
+    (herr : (runClosure env (.mw w)).outcome = .err e)
+    (hposts : ∀ q ∈ s.posts, (runClosure env (.mw q)).outcome = .ok) :
+    (runStagesE env (s :: rest)).evs =
+      (runPresE env s.pres).1 ++ expand [] (runClosure env (.mw w)).evs ++ (runPostsE env s.posts e).1 ∧
+    (runStagesE env (s :: rest)).status = e := by
+  simp only [runStagesE, hpres, hmid, runMid, hnot, herr, Outcome.statusOr, Bool.false_eq_true, ↓reduceIte]
+  exact ⟨trivial, posts_keep_status env s.posts e hposts⟩
+
+/-- when does a closure not reach its root? whenever a fallible node the root is computed from failed:
+    the root (middleware / handler) is then not invoked, so, for a wrapping middleware, `next` is never
+    awaited. -/
+theorem root_not_called (g : Graph) (fails : Kind → Bool) (fuel : Nat) (targets : List Nat)
+    (hop : oneParent g = true) (b x okm : Nat)
+    (hx : scrutinee g b = some x) (hf : fails (g.kind x) = true)
+    (hokm : okm ∈ g.succs b) (hk : g.kind okm = .okMatch)
+    (hroots : ∀ n k, g.kind n = k → isRootCall (.call n k) = true → DataPath g okm n) :
+    rootCalled (outOf g fails (exec g fails fuel targets [] {}).1) = false := by
+  have hinv := exec_inv fuel targets [] {} (Inv.init g fails)
+  apply Bool.eq_false_iff.mpr
+  intro hc
+  simp only [rootCalled, List.any_eq_true] at hc
+  obtain ⟨e, he, hroot⟩ := hc
+  have hkind : e = Ev.call e.node (g.kind e.node) := by
+    -- an event that is a root call is the statement of its node
+    simp only [outOf, List.mem_flatMap, emit, List.mem_append, List.mem_singleton] at he
+    obtain ⟨n, hn, he⟩ := he
+    rcases he with he | rfl
+    · have hu := frag_unit g g.size n e he
+      cases e with
+      | call n' k' => cases k' <;> simp_all [isRootCall, isUnit, Ev.kind]
+      | fail n' k' => simp [isRootCall] at hroot
+    · unfold evAt at hroot ⊢
+      split
+      · rename_i hcf; simp [hcf, isRootCall] at hroot
+      · rfl
+  have hpath := hroots e.node (g.kind e.node) rfl (by rw [← hkind]; exact hroot)
+  exact ok_dependants_skipped g fails fuel targets hop b x okm hx hf hokm hk e.node hpath e he rfl
+
+/-! ## the observer splice and `enforce_invariants` -/
+
+theorem attachObservers_nodes : ∀ (obs : List Nat) (g : Graph) (enew child : Nat) (prev : Option Nat),
+    (attachObservers g enew child obs prev).nodes = g.nodes ++ obs.map Kind.observer
+  | [], g, _, _, prev => by
+    cases prev <;> simp [attachObservers, addEdge]
+  | o :: rest, g, enew, child, prev => by
+    simp only [attachObservers, addNode]
+    rw [attachObservers_nodes rest]
+    cases prev <;> simp [addEdge]
+
+/-- how many error handlers of `hs` get their observers attached (↔ the handlers that reach
+    `attached_observer_indexes.insert` after the `for error_observer_id` loop) -/
+def fired (obs : List Nat) : Graph → List Nat → Nat
+  | _, [] => 0
+  | g, h :: hs =>
+    if obs.isEmpty then 0 else
+    match (g.succs h).head?, errorNewOf g h with
+    | some child, some enew => fired obs (attachObservers g enew child obs none) hs + 1
+    | _, _ => fired obs g hs
+
+theorem countKind_append (g : Graph) (extra : List Kind) (p : Kind → Bool) :
+    countKind { g with nodes := g.nodes ++ extra } p = countKind g p + (extra.filter p).length := by
+  simp [countKind, List.filter_append]
+
+/-- the splice adds exactly one observer node per observer and per error handler it fires for, and no
+    other node. -/
+theorem splice_nodes (obs : List Nat) : ∀ (hs : List Nat) (g : Graph),
+    ∃ extra, (splice obs g hs).nodes = g.nodes ++ extra ∧
+      (extra.filter isObserver).length = fired obs g hs * obs.length ∧
+      (extra.filter (· == .branch)).length = 0
+  | [], g => ⟨[], by simp [splice], by simp [fired], by simp⟩
+  | h :: hs, g => by
+    simp only [splice, fired]
+    by_cases hobs : obs.isEmpty = true
+    · simp only [hobs, ↓reduceIte]
+      exact ⟨[], by simp, by simp, by simp⟩
+    · simp only [hobs, Bool.false_eq_true, ↓reduceIte]
+      cases hc : (g.succs h).head? with
+      | none => simpa [hc] using splice_nodes obs hs g
+      | some child =>
+        cases he : errorNewOf g h with
+        | none => simpa [hc, he] using splice_nodes obs hs g
+        | some enew =>
+          simp only []
+          obtain ⟨extra, h1, h2, h3⟩ := splice_nodes obs hs (attachObservers g enew child obs none)
+          refine ⟨obs.map Kind.observer ++ extra, ?_, ?_, ?_⟩
+          · rw [h1, attachObservers_nodes]; simp
+          · have : ((obs.map Kind.observer).filter isObserver).length = obs.length := by
+              rw [List.filter_eq_self.mpr]
+              · simp
+              · intro k hk
+                obtain ⟨o, _, rfl⟩ := List.mem_map.mp hk
+                rfl
+            rw [List.filter_append, List.length_append, this, h2, Nat.add_mul]
+            omega
+          · have : ((obs.map Kind.observer).filter (· == .branch)).length = 0 := by
+              rw [List.filter_eq_nil_iff.mpr]
+              · rfl
+              · intro k hk
+                obtain ⟨o, _, rfl⟩ := List.mem_map.mp hk
+                simp
+            rw [List.filter_append, List.length_append, this, h3]
+
+/-- how many fallible nodes get a `MatchBranching` node -/
+def injected : Graph → List Nat → Nat
+  | _, [] => 0
+  | g, x :: xs =>
+    if ((g.succs x).filter (fun m => g.kind m == .okMatch || g.kind m == .errMatch)).length != 2
+    then injected g xs else injected (injectOne g x) xs + 1
+
+theorem foldl_nodes (f : Graph → Nat → Graph) (hf : ∀ acc m, (f acc m).nodes = acc.nodes) :
+    ∀ (ms : List Nat) (g : Graph), (ms.foldl f g).nodes = g.nodes
+  | [], _ => rfl
+  | m :: ms, g => by rw [List.foldl_cons, foldl_nodes f hf ms, hf]
+
+theorem injectOne_nodes_of (g : Graph) (x : Nat)
+    (h : (((g.succs x).filter (fun m => g.kind m == .okMatch || g.kind m == .errMatch)).length != 2) = false) :
+    (injectOne g x).nodes = g.nodes ++ [.branch] := by
+  unfold injectOne
+  simp only [h, Bool.false_eq_true, ↓reduceIte, addEdge, addNode]
+  exact foldl_nodes (fun acc m => { nodes := acc.nodes, edges := acc.edges ++ [⟨g.size, m, .move⟩] })
+    (fun _ _ => rfl) _ _
+
+theorem injectOne_nodes_not (g : Graph) (x : Nat)
+    (h : (((g.succs x).filter (fun m => g.kind m == .okMatch || g.kind m == .errMatch)).length != 2) = true) :
+    injectOne g x = g := by
+  unfold injectOne
+  simp only [h, ↓reduceIte]
+
+theorem inject_nodes : ∀ (xs : List Nat) (g : Graph),
+    (xs.foldl injectOne g).nodes = g.nodes ++ List.replicate (injected g xs) Kind.branch
+  | [], g => by simp [injected]
+  | x :: xs, g => by
+    rw [List.foldl_cons, inject_nodes xs]
+    simp only [injected]
+    cases hc : (((g.succs x).filter (fun m => g.kind m == .okMatch || g.kind m == .errMatch)).length != 2) with
+    | true =>
+      rw [injectOne_nodes_not g x hc]
+      simp
+    | false =>
+      rw [injectOne_nodes_of g x hc]
+      simp [List.replicate_succ]
+
+/-- **C06 (j) — `enforce_invariants`, proved**: in the graph pavexc generates code from, the number of
+    observer nodes is the number of `MatchBranching` nodes times the number of observers — for every graph `g`
+    without observers and branching nodes yet, *provided* every error whose matchers get a `MatchBranching`
+    node also has its error handler reached by the splice (`fired = injected`; this is what the fixed point of
+    `build_call_graph` delivers — one handler per fallible node, each with its `IntoResponse` child and its
+    `pavex::Error::new` — and what the check validates on every real graph). -/
+theorem n_observers_invariant_partial (obs : List Nat) (g : Graph)
+    (h0 : countKind g isObserver = 0) (hb : countKind g (· == .branch) = 0)
+    (hfix : fired obs g (ehNodes g) = injected (spliceAll obs g) (fallibleNodes (spliceAll obs g))) :
+    invariantHolds (injectBranching (spliceAll obs g)) obs.length = true := by
+  obtain ⟨extra, h1, h2, h3⟩ := splice_nodes obs (ehNodes g) g
+  have hn := inject_nodes (fallibleNodes (spliceAll obs g)) (spliceAll obs g)
+  simp only [invariantHolds, injectBranching, countKind, beq_iff_eq]
+  rw [hn]
+  simp only [spliceAll] at hn h1 ⊢
+  rw [h1]
+  simp only [List.filter_append, List.length_append]
+  simp only [countKind] at h0 hb
+  have hr1 : ((List.replicate (injected (splice obs g (ehNodes g)) (fallibleNodes (splice obs g (ehNodes g)))) Kind.branch).filter isObserver).length = 0 := by
+    rw [List.filter_eq_nil_iff.mpr]
+    · rfl
+    · intro k hk
+      rw [(List.mem_replicate.mp hk).2]
+      simp [isObserver]
+  have hr2 : ((List.replicate (injected (splice obs g (ehNodes g)) (fallibleNodes (splice obs g (ehNodes g)))) Kind.branch).filter (· == .branch)).length
+      = injected (splice obs g (ehNodes g)) (fallibleNodes (splice obs g (ehNodes g))) := by
+    rw [List.filter_eq_self.mpr]
+    · simp
+    · intro k hk
+      rw [(List.mem_replicate.mp hk).2]
+      simp
+  rw [h0, hb, h2, h3, hr1, hr2]
+  simp only [spliceAll] at hfix
+  rw [hfix]
+  simp
+
+/-- the full statement (no hypothesis on the fixed point): every graph that `build_call_graph` can produce
+    before the splice. Kept visible; `n_observers_invariant_partial` is the proved part. -/
+def n_observers_invariant_statement : Prop :=
+  ∀ (obs : List Nat) (g : Graph), countKind g isObserver = 0 → countKind g (· == .branch) = 0 →
+    (∀ x ∈ fallibleNodes g, ∃ h ∈ ehNodes g, ∃ m ∈ ehMatchers g h, m ∈ g.succs x) →
+    invariantHolds (injectBranching (spliceAll obs g)) obs.length = true
+
 /-! ### non-vacuity: a handler that takes `&T0` and returns `Result`, with a specific error handler and
 two observers; the constructor of `T0` is fallible too (fallback handler).
 
@@ -350,5 +765,24 @@ example : let fails := fun k => k == Kind.handler 0 || k == Kind.ctor 0
 example : scrutinee demo 1 = some 0 ∧ 8 ∈ demo.succs 1 ∧ demo.kind 8 = .okMatch ∧
     DataPath demo 8 9 ∧ 11 ∈ ehMatchers demo 12 ∧ demo.dataPreds 16 = [12] :=
   ⟨by decide, by decide, by decide, .single (by decide), by decide, by decide⟩
+
+/-- `demo` before the splice and the branching: 0 `c0` · 1 Err(c0) · 2 `Error::new` · 3 default handler ·
+    4 into_response · 5 Ok(c0) · 6 `h0` · 7 Err(h0) · 8 x3 · 9 `Error::new` · 10 into_response · 11 Ok(h0) ·
+    12 into_response -/
+def demo0 : Graph :=
+  ⟨[.ctor 0, .errMatch, .errorNew, .ehDefault, .intoResponse, .okMatch, .handler 0, .errMatch, .eh 3, .errorNew,
+    .intoResponse, .okMatch, .intoResponse],
+   [⟨0, 1, .move⟩, ⟨0, 5, .move⟩, ⟨1, 2, .move⟩, ⟨2, 3, .shared⟩, ⟨3, 4, .move⟩, ⟨5, 6, .shared⟩, ⟨6, 7, .move⟩,
+    ⟨6, 11, .move⟩, ⟨7, 8, .shared⟩, ⟨7, 9, .move⟩, ⟨8, 10, .move⟩, ⟨11, 12, .move⟩]⟩
+
+-- the hypotheses of `n_observers_invariant_partial` hold on it: two errors, two handlers reached, 2 × 2 observers
+example : countKind demo0 isObserver = 0 ∧ countKind demo0 (· == .branch) = 0 ∧
+    fired [0, 1] demo0 (ehNodes demo0) = 2 ∧
+    injected (spliceAll [0, 1] demo0) (fallibleNodes (spliceAll [0, 1] demo0)) = 2 ∧
+    countKind (injectBranching (spliceAll [0, 1] demo0)) isObserver = 4 := by decide
+-- and the graph the model builds has well-formed arms of the predicted shape
+example : let g := injectBranching (spliceAll [0, 1] demo0)
+    oneParent g = true ∧
+    armShape g 17 .ehDefault [0, 1] = true ∧ armShape g 18 (.eh 3) [0, 1] = true := by decide
 
 end Pxv.Err
